@@ -267,6 +267,23 @@ def fd_compare(ctx, what, case, grad, fbatch, x0, h0s, fscale, extra_abs=None, s
         # the sweep never converged to 6 digits: rounding-dominated or a feature below the smallest step, not evidence
         ctx.count("fd inconclusive (sweep did not converge)")
         continue
+      # second opinion before reporting: plain central differences over the sweep.  Next to a data point with tiny noise
+      # the value has a spike much narrower than the first steps; the extrapolation can then settle on a wrong limit with a
+      # small apparent error, while the small-step central differences converge to the analytic value.
+      seg = vals[j * 2 * NTAB:(j + 1) * 2 * NTAB]
+      pj = [p[j] for p in pts[j * 2 * NTAB:(j + 1) * 2 * NTAB]]
+      best_gap = float("inf")
+      for k in range(NTAB):
+        hp, hm = pj[2 * k] - x0[j], x0[j] - pj[2 * k + 1]
+        fp, fm = float(seg[2 * k]), float(seg[2 * k + 1])
+        if hp + hm <= 0 or not (math.isfinite(fp) and math.isfinite(fm)):
+          continue
+        dk = (fp - fm) / (hp + hm)
+        noise_k = (noise_abs + 4 * EPS * (fscale + max(abs(fp), abs(fm)))) / (0.5 * (hp + hm))
+        best_gap = min(best_gap, max(abs(g - dk) - 4 * noise_k, 0.0))
+      if best_gap <= 1e-5 * max(abs(g), abs(ests[j])) + 1e-300:
+        ctx.count("fd inconclusive (extrapolation and small-step central differences disagree; the latter match the gradient)")
+        continue
       viol(ctx, f"{what}: analytic gradient differs from the numerical derivative of the value", case,
            dict(detail or {}, coordinate=j, gradient=g, finite_difference=ests[j], fd_error_estimate=errs[j],
                 tolerance=tol, point=fl(x0)), signature)
